@@ -127,3 +127,25 @@ Proof.
   apply (pipeline_variants_agree (b_gi b) (wf_no_start_in_rhs _ Hwf) (wf_rule0_lhs _ Hwf) (wf_no_eof_in_rhs _ Hwf) (ex_intro _ _ (wf_rule0_rhs _ Hwf))
            (wf_nsyms _ Hwf) (wf_lhs_ok _ Hwf) t (text_tables s b t H)).
 Qed.
+
+(* C07 / C06 from the text: in every variant the value returned for an accepted input is the bottom-up evaluation of the actions
+   over a parse tree of that input, and no run crashes or returns nil - the hypothesis of PipelineRun.pipeline_values (after every
+   reduction there is a goto) is proved of every emitted table (GotoAfterReduce.goto_after_reduce) *)
+From YG Require Import GotoAfterReduce.
+Theorem text_values s b t : generate_text s = GOk b t -> packed_agrees (b_gi b) t ->
+  forall (v : variant) (act : semact) (fuel : nat) (inp : list tok),
+    (forall x, In x inp -> fst x <> eof /\ fst x < gi_nsyms (b_gi b)) ->
+    match parse v t (gi_rules (b_gi b)) act fuel inp with
+    | RAcc value out =>
+        exists tr : vtree, vvalid (gi_rules (b_gi b)) tr /\ Some (vroot (gi_rules (b_gi b)) tr) = hd_error (rhs_of (gi_rules (b_gi b)) 0) /\
+                           vyield tr = inp /\ vpost tr = out /\ value = veval act tr
+    | RCrash | RNil => False
+    | _ => True
+    end.
+Proof.
+  intros H Hpk. pose proof (text_wf s b t H) as Hwf. pose proof (text_tables s b t H) as Ht.
+  apply (pipeline_values (b_gi b) (wf_no_start_in_rhs _ Hwf) (wf_rule0_lhs _ Hwf) (wf_no_eof_in_rhs _ Hwf) (ex_intro _ _ (wf_rule0_rhs _ Hwf))
+           (wf_nsyms _ Hwf) (wf_lhs_ok _ Hwf) t Ht Hpk).
+  apply (goto_after_reduce (b_gi b) (wf_no_start_in_rhs _ Hwf) (wf_rule0_lhs _ Hwf) (wf_no_eof_in_rhs _ Hwf) (wf_rule0_rhs _ Hwf)
+           (wf_eof_terminal _ Hwf) (wf_productive_all _ Hwf (tables_productive _ t Ht)) t Ht).
+Qed.
